@@ -108,7 +108,8 @@ def stretch(img, arg0=None, arg1=None, dtype=np.uint8):
     if not ptp:
         img = np.zeros(img.shape, dtype)
         if min:
-            img += min
+            # assignment casts like the final astype(); `img += min` raises for dtype=bool
+            img[...] = min
         return img
     img *= float(max - min)/ptp
     if min: img += min
